@@ -11,8 +11,8 @@ import gen as G
 LEVEL = "proof"
 TRUSTED = ["model: coq/Model/Count.v (bins_go, count_binned, bin_sum_cnt) over Model/Restrict.v; theorems: Proofs/CountProofs.v"]
 ASSUMPTIONS = ["bin sizes are even numbers of ticks (centres on ticks) or the rounded centre may be either neighbour tick (rounding of x.5 ns is C09's)",
-               "exhaustive cases live on the dyadic lattice 2^-9 s where every float operation of the kernel is exact; on decimal lattices only a bin centre "
-               "exactly equal to the interval end is float_ambiguous (xpos is not re-rounded by the kernel)"]
+               "exhaustive cases live on the dyadic lattice 2^-9 s; random cases on decimal lattices incl. centres exactly on the interval end (deterministic since the kernel "
+               "rounds the centre like the edges)"]
 
 U = 1953125  # 2^-9 s in ticks: dyadic AND a whole number of ns
 
@@ -106,7 +106,7 @@ def run(res, tier, seed):
             res.count("sample_on_bin_edge")
         if tie:
             res.count("centre_equals_end")
-        amb = tie and kind == "decimal"
+        amb = False  # since the centre is rounded like the edges (fix in /repo) ties are deterministic on decimal lattices too
         bt, bc = J.jitcount(t, st, en, b / 1e9, np.dtype(np.int64))
         exp = oracle(ts, ep, b)
         m0 = out[2 * n].split("|")
@@ -150,7 +150,10 @@ def run(res, tier, seed):
             res.sample({"ts": ts, "ep": ep, "bin": b, "count": impl})
         # public API on a subsample
         if n % (5 if tier == "quick" else 3) == 0 and not amb:
-            v = public_case(nap, ts, vs, ep, b, exp, expa)
+            try:
+                v = public_case(nap, ts, vs, ep, b, exp, expa)
+            except Exception as ex:
+                v = {"key": {"op": "public", "part": "exception"}, "what": "public count/bin_average raised %s: %s" % (type(ex).__name__, str(ex)[:120])}
             res.evaluations += 1
             if v:
                 v["input"] = inp
